@@ -306,7 +306,9 @@ where
 						// a panic raised inside the library's own source (outside any guarded call of a monitor)
 						// is the library panicking, not the harness
 						let repo = std::env::var("JSV_REPO_DIR").unwrap_or_else(|_| "/repo".into());
-						if m.contains(&format!(" at {}/src/", repo.trim_end_matches('/'))) {
+						// (or inside json-number, the number type of the library, which the harness itself only
+						// reaches through the library)
+						if m.contains(&format!(" at {}/src/", repo.trim_end_matches('/'))) || m.contains("/json-number-") {
 							let id = CURRENT_ID.get().cloned().unwrap_or_else(|| "C00".into());
 							r.evaluations += 1;
 							r.violation(format!("{}:library-panic", id), format!("the library panicked during the workload of shard {}: {}", i, m), serde_json::json!({"sub": "library-panic", "message": m}));
